@@ -1,6 +1,7 @@
 """Property -> rules table.  Each rule is a necessary, structural condition of the property
 (see DESIGN.md sections 3 and 4)."""
 from . import rules_iter
+from . import rules_decl as D
 
 
 def _iter_rules_c09(ctx, view):
@@ -30,6 +31,53 @@ PROPS = {
         "assumptions": [],
     },
 }
+
+
+PROPS.update({
+    "C12": {
+        "rules": [D.r_keymut],
+        "explanation": "R-KEYMUT, a who-may-call rule over the typed indexmap API: (k1) the set of functions that can obtain `&mut I` of a "
+                       "stored key equals the sanctioned accessor set, (k2) push/push_increase/push_decrease/change_priority(_by) reach "
+                       "neither such a function nor any entry-removing or reordering map write, (k3) the sift functions never write the map, "
+                       "(k4) lookups forward the borrowed key unmodified.",
+        "trusted": ["indexmap: insert/entry keep the stored key of a present entry; only MutableKeys/replace APIs yield &mut K"],
+        "assumptions": ["interior mutability inside user item types is outside the property"],
+    },
+    "C14": {
+        "rules": [D.r_eqfoot],
+        "explanation": "R-EQFOOT: Store::eq is exactly IndexMap's equality of the two `map` fields (footprint {map}), both queue eq impls "
+                       "delegate to it and define no `ne`; Clone for Store and both queues is derived or field-complete (incl. clone_from); "
+                       "every field type owns its data.",
+        "trusted": ["indexmap PartialEq is set equality of (key,value) pairs, hasher- and order-independent"],
+        "assumptions": [],
+    },
+    "C16": {
+        "rules": [D.r_reset, D.r_dropless],
+        "explanation": "R-RESET: Store::drain and Store::clear empty heap, qp, size and map on every normal path; in drain the three table "
+                       "resets dominate the creation of the inner full-range map drain and the returned iterator wraps exactly it (nothing "
+                       "deferred to a destructor, so mem::forget is harmless); public drain/clear only delegate. R-DROPLESS: the only Drop "
+                       "impls are the two IterMut, whose constructors write nothing.",
+        "trusted": ["indexmap::Drain empties the map even when leaked (drain leak-safety of std Vec::drain)"],
+        "assumptions": [],
+    },
+    "C17": {
+        "rules": [D.r_capfwd],
+        "explanation": "R-CAPFWD: each capacity method of Store calls the same-named method of map, heap and qp with the unmodified argument "
+                       "on every successful path and does nothing else; try_ forms contain no panicking construct and propagate errors with `?`; "
+                       "queue methods delegate; capacity() is map.capacity(); with_capacity gives the capacity to all three containers; "
+                       "capacity-invisibility: a capacity() result is only ever returned by a capacity accessor.",
+        "trusted": ["std/indexmap reserve contracts (capacity >= len + additional)"],
+        "assumptions": [],
+    },
+    "C18": {
+        "rules": [D.r_nohash],
+        "explanation": "R-NOHASH: no call site in any crate body resolves to a method of Hash/Hasher/BuildHasher, to IndexMap::hasher or to a "
+                       "raw-hash API; values of the hasher type flow only into constructors; the hasher parameter carries only BuildHasher(+Default) "
+                       "bounds. By parametricity the crate can then depend on the hasher only through the insertion-ordered map.",
+        "trusted": ["indexmap's observable behaviour as an insertion-ordered map is hasher-independent given consistent Hash/Eq"],
+        "assumptions": [],
+    },
+})
 
 
 def configs_for(pid, tier):
